@@ -271,7 +271,11 @@ def _check(case):
         warnings.filterwarnings("ignore", message=MARKER)
         sys.stdout, sys.stderr = silencer_out, silencer_err
         PRE_STREAMS["stdout"] = silencer_out
-        if pre.get("trace"):
+        if pre.get("trace") == "threading-only":      # a hook for NEW threads only (a thread monitor), none in this thread
+            threading.settrace(_pre_tracer)
+        elif pre.get("trace") == "sys-only":          # a debugger tracing this thread only
+            sys.settrace(_pre_tracer)
+        elif pre.get("trace"):
             threading.settrace(_pre_tracer)
             sys.settrace(_pre_tracer)
         runner = Runner(defaults=[], args=_argv(case, tmp), found_suites=[suite],
@@ -430,6 +434,11 @@ def _extras():
             for n in (1, 3):
                 yield {"opts": _opts(s), "ending": ending, "ntests": n, "at": 0, "last_test_resets_stdout": True,
                        "pre": {"threshold": [701, 11, 9], "debug": 0, "trace": False}}
+    # the two trace hooks differ before the run (one of them set, the other not): each is put back as it was
+    for which in ("threading-only", "sys-only"):
+        for s in (("coverage",), ("coverage", "buffer")):
+            yield {"opts": _opts(s), "ending": "normal", "ntests": 2, "at": 1,
+                   "pre": {"threshold": [701, 11, 9], "debug": 0, "trace": which}}
     # a trace function already installed before the run
     for ending in ("normal", "KeyboardInterrupt"):
         for s in ((), ("coverage",), ("profile",), ("coverage", "profile", "buffer")):
